@@ -1019,6 +1019,34 @@ func (c *CFG) ArgAt(l Loc, param types.Object) ast.Expr {
 	return nil
 }
 
+// CallSiteAt returns the call, in the function's own text, for which the copy of a helper
+// that contains l was spliced in (nil when l lies in the function's own body).  For a helper
+// spliced into another spliced helper it climbs to the outermost call.
+func (c *CFG) CallSiteAt(l Loc) *ast.CallExpr {
+	site, ok := c.siteOf[l.B]
+	if !ok {
+		return nil
+	}
+	call := site.call
+	for i := 0; i < 4; i++ {
+		found := false
+		for _, cl := range c.LocsOf(call) {
+			if up, ok := c.siteOf[cl.B]; ok && up.call != call {
+				// the call itself sits in a spliced copy: with one copy the climb is unambiguous
+				if len(c.LocsOf(call)) == 1 {
+					call = up.call
+					found = true
+				}
+			}
+			break
+		}
+		if !found {
+			break
+		}
+	}
+	return call
+}
+
 // GuardedAt is Guarded for exactly the location l (not the other standing places of its node).
 func (c *CFG) GuardedAt(l Loc, pred func(Fact) bool) bool {
 	ok, _ := c.guardedFromExact(c.Entry(), l, pred)
